@@ -293,6 +293,16 @@ def realize(world: World, classes: Any, renderers: Dict[str, Any], via_add: bool
         # Union[Column, Collection[Column]]: a bare column, a list and a tuple are all documented; equal
         # references are built in different styles on purpose
         style = sum(map(ord, h)) % 3
+        if d.get("alias_table_lists"):
+            # the caller passes the tables' own column lists (all columns, in order)
+            for side, cs in (("col1", c1), ("col2", c2)):
+                t = m[d[side][0]]["table"]
+                if t and m[t]["cols"] == d[side] and t in real:
+                    if side == "col1":
+                        c1 = real[t].columns
+                    else:
+                        c2 = real[t].columns
+            style = 2
         if style == 1:
             c1, c2 = tuple(c1), tuple(c2)
         a1: Any = c1[0] if (len(c1) == 1 and style == 0) else c1
